@@ -182,11 +182,16 @@ class MachineClause(Clause):
         self.doc = kw.get('doc') or (model.__doc__ or '').strip()
 
     def _check(self, case, ctx):
-        m = self.model(case['init'], ctx)
-        m.invariant()
-        for op in case['ops']:
-            m.apply(op)
+        m = None
+        try:
+            m = self.model(case['init'], ctx)
             m.invariant()
+            for op in case['ops']:
+                m.apply(op)
+                m.invariant()
+        finally:
+            if m is not None and hasattr(m, 'close'):
+                m.close()
 
 
 # ----------------------------------------------------------------------------------------------
@@ -384,8 +389,8 @@ def _run_machine(prop, clause, tier, seed, shard, st, known, best):
             except _Excluded:
                 self.dead = True
                 return
-            except Violation as v:
-                pass
+            except Violation as e_:
+                v = e_
             except (_StopShrink, HarnessError):
                 raise
             except Exception as e:  # noqa
@@ -429,6 +434,8 @@ def _run_machine(prop, clause, tier, seed, shard, st, known, best):
             self._guard(go)
 
         def teardown(self):
+            if self.model is not None and hasattr(self.model, 'close'):
+                self.model.close()
             if self.case is not None:
                 if best['t_first'] is None:
                     st.record(json.loads(canon(self.case)), self.ctx, False)
